@@ -25,16 +25,23 @@ import (
 // monitors raise ordinary violations if a defect returns.
 
 type cronSc struct {
-	c      *Ctx
-	w      *cronWorld
-	ctx    *sim.Context
-	clk    *fakeclock.FakeClock
-	worker *croncontroller.CronWorker
-	h      *captureHandler
-	cur    map[string]*jcVersion
+	deferEmit *[]func()
+	c         *Ctx
+	w         *cronWorld
+	ctx       *sim.Context
+	clk       *fakeclock.FakeClock
+	worker    *croncontroller.CronWorker
+	h         *captureHandler
+	cur       map[string]*jcVersion
 }
 
 func newCronSc(c *Ctx, now0 int64, jcs ...*execution.JobConfig) *cronSc {
+	return newCronScHook(c, now0, nil, jcs...)
+}
+
+// newCronScHook: duringInit (if any) runs once in the middle of CronWorker.Init (at the
+// first load of the cron config inside cronschedule.New, i.e. after the cache was listed).
+func newCronScHook(c *Ctx, now0 int64, duringInit func(s *cronSc), jcs ...*execution.JobConfig) *cronSc {
 	s := &cronSc{c: c, cur: map[string]*jcVersion{}}
 	s.w = &cronWorld{c: c, rng: c.Rng, specIDs: map[string]int{}, maxList: 6000, scale: 1}
 	s.ctx = sim.NewContext()
@@ -59,8 +66,24 @@ func newCronSc(c *Ctx, now0 int64, jcs ...*execution.JobConfig) *cronSc {
 	s.worker = croncontroller.NewCronWorker(cctx, s.h)
 	infw := croncontroller.NewInformerWorker(cctx, croncontroller.NewUpdateHandler(cctx))
 	infw.Init()
+	var lateAdds []func()
+	if duringInit != nil {
+		fired := false
+		s.ctx.OnCronConfigLoad = func() {
+			if !fired {
+				fired = true
+				s.deferEmit = &lateAdds
+				duringInit(s)
+				s.deferEmit = nil
+			}
+		}
+	}
 	err := s.worker.Init()
+	s.ctx.OnCronConfigLoad = nil
 	c.Emit(fmt.Sprintf("cron.init %d %s", now0*1e9, strings.Join(ids, ",")), map[bool]string{true: "ok", false: "err"}[err == nil])
+	for _, f := range lateAdds {
+		f() // the op lines of events that happened during Init follow the init line
+	}
 	return s
 }
 
@@ -74,6 +97,16 @@ func scJC(name string, expr string, mod func(*execution.JobConfig)) *execution.J
 }
 
 func (s *cronSc) add(jc *execution.JobConfig) {
+	if s.deferEmit != nil {
+		// inside Init: apply now, emit the op lines after the init line
+		s.ctx.Sim().JobConfigs().Apply("add", jc)
+		*s.deferEmit = append(*s.deferEmit, func() {
+			v := s.w.describe(jc, tzChoice{"", nil})
+			s.cur[v.key] = v
+			s.c.Emit(fmt.Sprintf("cron.add %d", v.id), "ok")
+		})
+		return
+	}
 	v := s.w.describe(jc, tzChoice{"", nil})
 	s.cur[v.key] = v
 	s.ctx.Sim().JobConfigs().Apply("add", jc)
@@ -135,6 +168,19 @@ func runCronScenarios(c *Ctx) {
 		}
 		if len(got) == 0 {
 			c.Violate("C03", "change-takes-effect", "JobConfig created after start fired nothing in 200s of ticks (every-minute schedule)")
+		}
+		c.Nontrivial()
+	})
+
+	// A JobConfig created while Init is running (after the cache was listed) is still scheduled.
+	c.RunScenario("create-during-init", func() {
+		s := newCronScHook(c, base, func(s *cronSc) { s.add(scJC("late", "* * * * *", nil)) }, scJC("a", "0 0 1 1 *", nil))
+		var got []fired
+		for t := base + 1; t < base+200; t += 7 {
+			got = append(got, s.tick(t)...)
+		}
+		if len(got) == 0 {
+			c.Violate("C03", "change-takes-effect", "JobConfig created while the schedule was being initialised fired nothing in 200s of ticks (every-minute schedule)")
 		}
 		c.Nontrivial()
 	})
